@@ -108,7 +108,8 @@ def _fault_child(case):
     try:
         spec = _spec(case.get("obs", "vector"), case.get("dt", 0))
         spec["fault_log"] = log
-        spec["faults"] = [dict(f, cmd=cmd, at=at, secs=SLEEP_S) for f in case["faults"]]
+        spec["faults"] = [dict(f, cmd=cmd, at=at, secs=f.get("secs", SLEEP_S)) for f in case["faults"]]
+        TIMEOUT_S = case.get("timeout", globals()["TIMEOUT_S"])  # staggered-sleep cases use a longer deadline (less scheduling jitter)
         kinds = sorted(set(f["kind"] for f in case["faults"]))
         tag = "after_" + _dominant(kinds)
         raised_types = sorted(set(f["exc"] for f in case["faults"] if f["kind"] == "raise"))
@@ -272,6 +273,14 @@ def fault_grid(tier):
                         cases.append({"n": N_ENVS, "cmd": cmd, "at": at,
                                       "faults": [{"inst": w1, "kind": k1, "exc": EXCS[(ci + at + w1) % len(EXCS)]},
                                                  {"inst": w2, "kind": k2, "exc": EXCS[(ci + at + w2 + 2) % len(EXCS)]}]})
+    # staggered slow workers: a lower-index worker answers INSIDE the deadline T (after 0.7 T), a higher-index one AFTER it (1.4 T, but
+    # less than 0.7 T + T): the deadline is a budget for the whole *_wait call, so this is a timeout - however the time is split
+    for ci, cmd in enumerate(("reset", "step", "call")):
+        for at in range(2):
+            for w1, w2 in itertools.combinations(range(N_ENVS), 2):
+                cases.append({"n": N_ENVS, "cmd": cmd, "at": at, "timeout": 1.0,
+                              "faults": [{"inst": w1, "kind": "sleep", "exc": EXCS[0], "secs": 0.7},
+                                         {"inst": w2, "kind": "sleep", "exc": EXCS[0], "secs": 1.4}]})
     # close() while the faulted call is still pending (never waited for)
     for ci, cmd in enumerate(("reset", "step", "call")):
         for at in range(2):
